@@ -39,7 +39,8 @@ PROBES = ["overloads_same_param_names", "optional_param_member", "class_missing_
           "text_with_backslash", "text_with_newline", "text_with_nonascii", "text_with_unprintable_latin1",
           "unprintable_followed_by_hexdigit", "templated_class_documented", "no_docs_at_all",
           "bindings_with_marker", "bindings_expected_empty", "more_bindings_than_documented_overloads",
-          "xml_member_has_extra_optional_param", "overloads_with_permuted_param_names"]
+          "xml_member_has_extra_optional_param", "overloads_with_permuted_param_names",
+          "literals_crosschecked_with_gpp"]
 
 
 def batches(tier):
@@ -319,6 +320,7 @@ def gen_case(tape, batch):
     case["sub"] = tape.bool(0.3, "as-submodule")
     case["tpl"] = B.TEMPLATES[tape.weighted([3, 2, 2], "tpl")]
     case["top"] = ""
+    case["gpp"] = tape.bool(0.04, "gpp-crosscheck")
     case["nfaults"] = 0
     if batch == "faulty":
         case["nfaults"] = 1 + tape.weighted([5, 2, 1], "n-faults")
@@ -473,6 +475,12 @@ def run_case(tape, batch):
             lits = None
         if lits is not None:
             viol += judge(case, calls, lits, w)
+            if case["gpp"] and not viol and lits:
+                ok_lits = [lt for lt in lits]
+                bad = gpp_crosscheck(ok_lits, [c.get("ret", "").encode("utf-8") for c in calls])
+                if bad is not None:
+                    return {"harness": "literal-decoder-disagrees-with-g++", "detail": bad}
+                w.probe("literals_crosschecked_with_gpp", len(ok_lits))
     digest = hashlib.sha256((w.digest() + repr((t.state, t.error))).encode()).hexdigest()
     ndoc = sum(1 for e in case["docs"] for m in e["members"] if m.get("marker"))
     sample = {"interface": case["text"][:500], "classes_documented": [e["name"] for e in case["docs"]],
@@ -484,6 +492,25 @@ def run_case(tape, batch):
                       "xml_opens": seen[0]},
             "faults": dict(w.faults_fired), "probes": w.probes, "steps": w.step, "sample": sample,
             "trace": ["%d %s#%d %s %s -> %s (%s)" % ev for ev in w.log[-30:]] if viol else None}
+
+
+def gpp_crosscheck(lits, expected):
+    """Harness self-check: g++ must decode each emitted literal to the bytes our independent decoder
+    computed.  -> None if g++ agrees, else a description (that would be a decoder bug, not a verdict)."""
+    import subprocess
+    import tempfile
+    src = ["constexpr bool eq(const char* a, const unsigned char* b, int n) "
+           "{ for (int i = 0; i < n; ++i) if ((unsigned char)a[i] != b[i]) return false; return true; }"]
+    for k, (lit, exp) in enumerate(zip(lits, expected)):
+        src.append("constexpr unsigned char e%d[] = {%s0};" % (k, "".join("%d," % b for b in exp)))
+        src.append("static_assert(sizeof(\"%s\") - 1 == %d && eq(\"%s\", e%d, %d), \"literal %d\");" %
+                   (lit, len(exp), lit, k, len(exp), k))
+    with tempfile.TemporaryDirectory(prefix="verif-c17-") as d:
+        path = d + "/lits.cpp"
+        with open(path, "w", encoding="utf-8", errors="surrogateescape") as f:
+            f.write("\n".join(src) + "\n")
+        p = subprocess.run(["g++", "-std=gnu++17", "-fsyntax-only", "-w", path], capture_output=True, text=True)
+        return None if p.returncode == 0 else p.stderr[:600]
 
 
 def judge(case, calls, lits, w):
